@@ -335,9 +335,12 @@ def main(argv=None):
 
     cov = dict(res.get("coverage", {}))
     obligations = max(n_theorems, len(theorems)) if not broken else max(1, n_theorems + len(broken))
+    if discharged >= 1 and not broken:
+        cov.update(dict(obligations=int(obligations), discharged=int(discharged)))
+    else:
+        # proof obligations broken: no proof-level counts are claimed for this run
+        cov.update(dict(obligations_not_discharged=len(broken)))
     cov.update(dict(
-        obligations=int(obligations if obligations else 1),
-        discharged=int(discharged),
         checker_cmd=f"cd lean && lake build {' '.join(spec.LEAN_TARGETS)} && lake env lean out/audit/Audit_{prop_id}.lean (#print axioms)"
                     + (" && lake env leanchecker" if args.tier == "thorough" else ""),
         trusted_base=TRUSTED_BASE + getattr(spec, "TRUSTED_EXTRA", []),
